@@ -224,6 +224,7 @@ class Manager:
         self._executing_thread = None
         self._flushing_thread = None
         self._running = False
+        self._exitcode = None
         self.__thread = None
         self.__process = None
         self._lock = RLock()
@@ -653,7 +654,11 @@ class Manager:
             except KeyboardInterrupt:
                 self.stop()
             except SystemExit as e:
-                self.stop(e.code)
+                # stop; run() hands the code to its caller once everything
+                # queued has been processed
+                if e.code is not None:
+                    self.root._exitcode = e.code
+                self.stop()
             except BaseException:
                 value = err = _exc_info()
                 event.value.errors = True
@@ -879,7 +884,9 @@ class Manager:
         except KeyboardInterrupt:
             self.stop()
         except SystemExit as e:
-            self.stop(e.code)
+            if e.code is not None:
+                self.root._exitcode = e.code
+            self.stop()
         except BaseException:
             self.unregisterTask((event, task, parent))
 
@@ -954,6 +961,7 @@ class Manager:
                 pass
 
         self._running = True
+        self._exitcode = None
         self.root._executing_thread = current_thread()
 
         # Setup Communications Bridge
@@ -981,3 +989,7 @@ class Manager:
         self.root._executing_thread = None
         self.__thread = None
         self.__process = None
+
+        code, self._exitcode = self._exitcode, None
+        if code is not None:
+            raise SystemExit(code)
